@@ -39,7 +39,8 @@ Definition scope (k : call) : bool :=
   (0 <=? fst (k_maxn k)) && (0 <? snd (k_maxn k)) &&
   (0 <? fst (k_bw k)) && (0 <? snd (k_bw k)) &&
   match k_bigwig k with
-  | Some (bp, bq) => (0 <=? bp) && (0 <? bq) && (k_out k <=? k_in k)
+  | Some (bp, bq) => (0 <=? bp) && (0 <? bq) && (k_out k <=? k_in k) &&
+                     forallb c_bw (k_genome k)     (* signal known on every chromosome *)
   | None => true
   end &&
   (1 <=? k_jobs k)%nat &&
@@ -79,9 +80,12 @@ Definition locus_attrs (k : call) (l : locus) : bool :=
 (* eligibility of a background tile, pointwise                                           *)
 
 (* 100 * the robust minimum (1% quantile, linear interpolation) of the signal of the valid
-   input loci; None when there is none *)
+   input loci; None when there is none.  (Inside the scope every chromosome is in the bigwig;
+   outside it, loci and tiles of a chromosome without signal are left out, so that the
+   consistency check of the replayed permutations stays meaningful there.) *)
 Definition robust_spec (k : call) : option Z :=
-  robust_min100 (map l_sig (filter (valid_spec k) (k_loci k))).
+  robust_min100 (map l_sig (filter (fun l => valid_spec k l && c_bw (chrom_of k (l_chrom l)))
+                                   (k_loci k))).
 
 (* summed signal not above signal_beta times the robust minimum; [thr] is [robust_spec k] *)
 Definition signal_ok (k : call) (thr : option Z) (t : tile) : bool :=
@@ -102,6 +106,7 @@ Definition touched (k : call) (ct : nat * nat) : bool :=
                     (Z.of_nat (snd ct) * k_in k <=? l_end l)) (k_loci k).
 
 Definition eligible (k : call) (thr : option Z) (ct : nat * nat) : bool :=
+  has_signal k (fst ct) &&
   n_ok k (t_n (tile_of k ct)) && signal_ok k thr (tile_of k ct) && negb (touched k ct).
 
 (* every tile of every chromosome in chroms, len // w tiles each *)
@@ -148,13 +153,13 @@ Definition row_eqb (a b : row) : bool :=
 Definition row_tile (k : call) (r : row) : nat * nat :=
   let '(c, s, _) := r in (c, Z.to_nat (s / k_in k)).
 
-(* aligned tile inside its chromosome, overlapping no input row [start, end), N fraction
-   and signal within the limits *)
+(* aligned tile inside its chromosome, not a tile touched by an input row, N fraction and
+   signal within the limits *)
 Definition row_ok (k : call) (thr : option Z) (r : row) : bool :=
   let '(c, s, e) := r in
   existsb (Nat.eqb c) (chroms_of k) &&
   (0 <=? s) && (s mod k_in k =? 0) && (e =? s + k_in k) && (e <=? c_len (chrom_of k c)) &&
-  forallb (fun l => negb ((l_chrom l =? c)%nat && (s <? l_end l) && (l_start l <? e))) (k_loci k) &&
+  negb (touched k (row_tile k r)) &&
   n_ok k (t_n (tile_of k (row_tile k r))) &&
   signal_ok k thr (tile_of k (row_tile k r)).
 
@@ -194,10 +199,29 @@ Definition rows_eqb (a b : list row) : bool :=
 
 Definition outcome_eqb : outcome -> outcome -> bool := res_eqb rows_eqb.
 
-(* the call, what the implementation returned, and whether the same call with n_jobs=1
-   returned the identical frame *)
-Definition case := (call * outcome * bool)%type.
+(* the call, what the implementation returned, whether the same call with n_jobs=1 returned
+   the identical frame, and whether the caller's objects (loci frame, chroms) were left
+   unmodified (not part of the property: looked at by the tie only) *)
+Definition case := (call * outcome * bool * bool)%type.
+
+(* the frame is documented as sorted by chromosome and position; not part of the property,
+   so only the tie (agreement with the model) looks at it *)
+Fixpoint sortedb (l : list row) : bool :=
+  match l with
+  | [] => true
+  | a :: t => match t with
+              | [] => true
+              | b :: _ => let '(c1, s1, _) := a in let '(c2, s2, _) := b in
+                          ((c1 <? c2)%nat || ((c1 =? c2)%nat && (s1 <=? s2))) && sortedb t
+              end
+  end.
+Definition sorted_outcome (o : outcome) : bool :=
+  match o with Ok R => sortedb R | Err => true end.
 
 Definition check_case (c : case) : nat :=
-  let '(k, o, same) := c in
-  verdict (attrs k && outcome_eqb o (model k)) (same && spec_ok k o).
+  let '(k, o, same, unchanged) := c in
+  verdict (attrs k && outcome_eqb o (model k) && sorted_outcome o && unchanged) (same && spec_ok k o).
+
+(* a sequence of calls made one after the other in one process on the same files (one thing
+   changed between consecutive calls): the worst verdict *)
+Definition check_cases (l : list case) : nat := fold_right Nat.max 0%nat (map check_case l).
